@@ -1,5 +1,6 @@
 //! vcore: log/codec/crypto level monitors (C06 C07 C08 C10 C14 C15).
 mod c08;
+mod c10;
 mod c14;
 mod c15;
 mod gen;
@@ -13,6 +14,7 @@ fn main() {
     let mut rep = vkit::Reporter::new(&prop_of(&args.check), args.out.clone());
     match args.check.as_str() {
         "c08" => c08::run(&args, &mut rep),
+        "c10" => c10::run(&args, &mut rep),
         "c06" => logs::run(&args, &mut rep, "C06"),
         "c07" => logs::run(&args, &mut rep, "C07"),
         "c14" => c14::run(&args, &mut rep),
